@@ -167,3 +167,12 @@ package tls
 //@   at before call cipher#1: assert dir_server_out: !isClient ==> !arg2
 //@   at before call cipher#0: assert DEFECT_C27_dir_client_out: isClient ==> !arg2
 //@   at before call cipher#1: assert dir_client_in: isClient ==> arg2
+
+// C35: installing ticket keys never shares storage with a key list that was handed out before (Config.Clone and the
+// per-connection snapshot copy only the slice header).
+//@ func (*Config).SetSessionTicketKeys
+//@   property C35
+//@   requires c != nil
+//@   panics when len(keys) == 0
+//@   ensures fresh_keys: fresh(c.sessionTicketKeys) && len(c.sessionTicketKeys) == len(keys)
+//@   loop 0 invariant -1 <= $rangeindex && $rangeindex < len(keys)
